@@ -1,6 +1,7 @@
 import Drv.Cks
 import Drv.PkgLen
 import Drv.AmlScalars
+import Drv.Tables
 open Drv
 
 /-- one line `stream case… | impl…` → failures -/
@@ -20,6 +21,8 @@ def checkLine (line : String) : List Fail :=
       | "eisa" => checkEisa case impl
       | "eisablk" => checkEisaBlk case impl
       | "uuid" => checkUuid case impl
+      | "tbl" => checkTbl case impl
+      | "tblbig" => checkTbl case impl
       | _ => [⟨"corr", "-", "driver", s!"unknown stream {stream}"⟩]
     | [] => [⟨"corr", "-", "driver", "empty line"⟩]
   | _ => [⟨"corr", "-", "driver", "malformed line (no ' | ')"⟩]
